@@ -242,6 +242,10 @@ class Oracle:
         c.scale = so["ws"] if both_ws else 0
         c.my_ws = mine["ws"] if both_ws else 0
         c.ts = so["ts"] and mine["ts"]
+        if h["cookie"] and h.get("ackopts") is not None:
+            # a connection created from a cookie knows only what the completing ACK carries: timestamps are in use
+            # iff that ACK had the option (the SYN's options were not kept)
+            c.ts = h["ackopts"]["ts"]
         # offered so far: the SYN's window (never scaled) and the window of the final ACK
         c.edge = max(h["synwnd"] if not h["cookie"] else 0, h.get("ackwnd", 0) << c.scale)
         c.mtu, c.cc = self.mtu, self.cc
@@ -310,11 +314,15 @@ class Oracle:
                 h["ackwnd"] = max(h.get("ackwnd", 0), f["wnd"])
             if f["ack"] == exact:
                 if "S" not in f["fl"] and "F" not in f["fl"]:
+                    if not h.get("done"):
+                        h["ackopts"] = parse_opts(f["opt"])
                     h["done"] = True
                     self.pending.append(h)
             else:
                 if h["cookie"] and f["fl"] == "A" and not outs and abs(sdiff(f["ack"], exact)) <= 3:
                     # silently taken or silently dropped: the connection's own sequence numbers will tell
+                    if not h.get("done"):
+                        h["ackopts"] = parse_opts(f["opt"])
                     h["done"] = True
                     self.pending.append(h)
                     return
